@@ -492,6 +492,41 @@ func ValueFor(col, sqlText string, row Row, idx int, ncols int, res *Result) dri
 		// realistic stored spans: FixedString(16)/FixedString(8) ids, payload as the writer stores it
 		tid := fmt.Sprintf("T%015d", row.Series)
 		sid := fmt.Sprintf("S%07d", idx%10000000)
+		if strings.Contains(sqlText, "root_service_name") {
+			// TraceQL search result: one row per trace, the matched spans as parallel arrays
+			n := 1 + idx%3
+			switch c {
+			case "trace_id":
+				// (the statement selects lower(hex(trace_id)): 32 hex digits)
+				return fmt.Sprintf("%032x", idx+1)
+			case "span_id":
+				ids := make([]string, n)
+				for i := range ids {
+					ids[i] = fmt.Sprintf("S%07d", (idx*7+i)%10000000)
+				}
+				return ids
+			case "duration":
+				v := make([]int64, n)
+				for i := range v {
+					v[i] = int64(1000 * (i + 1))
+				}
+				return v
+			case "timestamp_ns":
+				v := make([]int64, n)
+				for i := range v {
+					v[i] = row.TsNs + int64(i)
+				}
+				return v
+			case "start_time_unix_nano":
+				return row.TsNs
+			case "duration_ms":
+				return float64(idx) + 0.5
+			case "root_service_name":
+				return []string{"svc", "sv\"c", "s\x1bvc"}[idx%3]
+			case "root_trace_name":
+				return fmt.Sprintf("op%d", idx)
+			}
+		}
 		switch c {
 		case "trace_id":
 			return tid
